@@ -54,4 +54,49 @@ inductive Good (T : Tables) : PosImpl → List Frame → List PosImpl → Prop w
   | nil (s) : WFI T s → Good T s [] []
   | cons (s f st s' sv) : WFI T s → undoFrame T s f = s' → Good T s' st sv → Good T s (f :: st) (s' :: sv)
 
+theorem find?_range_congr (f g : Nat → Bool) (n : Nat) (h : ∀ i, i < n → f i = g i) :
+    (List.range n).find? f = (List.range n).find? g := by
+  have gen : ∀ (l : List Nat), (∀ i ∈ l, f i = g i) → l.find? f = l.find? g := by
+    intro l
+    induction l with
+    | nil => intro _; rfl
+    | cons a l ih =>
+      intro hl
+      simp only [List.find?_cons]
+      rw [hl a (by simp), ih (fun i hi => hl i (by simp [hi]))]
+  exact gen _ (fun i hi => h i (List.mem_range.1 hi))
+
+/-- king squares are derived from the king bitboards; under the invariant they are the first square holding the king -/
+theorem kingSq_spec (T : Tables) (s : PosImpl) (h : Inv T s) :
+    s.wKingSq = (List.range 64).find? (fun i => getP s.squares i == WKING) ∧
+    s.bKingSq = (List.range 64).find? (fun i => getP s.squares i == BKING) := by
+  have e : s = xorHash (fresh T (abs s)) 0 := by rw [xorHash_zero]; exact h
+  constructor
+  · unfold PosImpl.wKingSq firstSquare
+    rw [e, pbb_fresh T _ 0 1 (by decide) (by decide)]
+    apply find?_range_congr
+    intro i hi
+    rw [bbOf_get _ _ hi]
+    show ((getP s.squares i).toNat == 1) = (getP s.squares i == WKING)
+    have := toNat_eq_iff (getP s.squares i) 1 (by decide)
+    by_cases hh : getP s.squares i = WKING
+    · rw [hh]; decide
+    · have h2 : ¬ (getP s.squares i).toNat = 1 := fun h3 => hh (this.1 h3)
+      have a1 : ((getP s.squares i).toNat == 1) = false := by simpa using h2
+      have a2 : (getP s.squares i == WKING) = false := by simpa using hh
+      rw [a1, a2]
+  · unfold PosImpl.bKingSq firstSquare
+    rw [e, pbb_fresh T _ 0 7 (by decide) (by decide)]
+    apply find?_range_congr
+    intro i hi
+    rw [bbOf_get _ _ hi]
+    show ((getP s.squares i).toNat == 7) = (getP s.squares i == BKING)
+    have := toNat_eq_iff (getP s.squares i) 7 (by decide)
+    by_cases hh : getP s.squares i = BKING
+    · rw [hh]; decide
+    · have h2 : ¬ (getP s.squares i).toNat = 7 := fun h3 => hh (this.1 h3)
+      have a1 : ((getP s.squares i).toNat == 7) = false := by simpa using h2
+      have a2 : (getP s.squares i == BKING) = false := by simpa using hh
+      rw [a1, a2]
+
 end PosImpl
